@@ -26,6 +26,7 @@ where
     /// representation invariant: the map has room for every node; only nodes wait in `tovisit`, and each of them has all
     /// its predecessors emitted already
     pub open spec fn tinv<G: IntoNeighborsDirected<NodeId = N>>(&self, g: G) -> bool {
+        &&& g.inv()
         &&& forall|a: N| g.is_node(a) ==> #[trigger] self.ordered.holds(a)
         &&& forall|i: int| 0 <= i < self.tovisit@.len() ==> g.is_node(#[trigger] self.tovisit@[i]) && self.ready(g, self.tovisit@[i])
     }
